@@ -485,6 +485,9 @@ Theorem date_text_roundtrip x : date_storable x ->
   exists t, date_sql_text x = Some t /\ date_convert_text t = Some x /\ length t = 10%nat.
 Proof.
   intros (Hm & Hz & Hy). unfold date_sql_text, year_of_us in *.
+  assert (Hx0 : x / us_per_day * us_per_day = x).
+  { pose proof (Z.div_mod x us_per_day ltac:(unfold us_per_day; lia)). lia. }
+  cbv zeta. rewrite Hx0.
   replace (x =? zero_time_us) with false by (symmetry; now apply Z.eqb_neq).
   destruct (days_civil_days (x / us_per_day)) as [R1 R2].
   destruct (civil_from_days (x / us_per_day)) as [[y m] d] eqn:Ec. cbv zeta in Hy.
